@@ -178,6 +178,9 @@ class DictProxy(dict):
 
         return super().__eq__(other)
 
+    def __ne__(self, other: Any) -> bool:
+        return not self.__eq__(other)
+
 
 class DictField(Field):
     """
